@@ -1,5 +1,6 @@
 SPECIFICATION Spec
 CONSTANTS
+  RenameInPlace = FALSE
   MaxEntries = 2
   PoolSize = 10
   DoExport = FALSE
